@@ -186,6 +186,11 @@ def build_dataset(desc):
             for name, da in extra.items():
                 ds[name] = da
     ds.attrs = {a: 0 for a in desc["attrs"]}
+    if "disparity_source" in ds.attrs and desc.get("source") is not None:
+        # what add_disparity records: the interval as given (a list / tuple) or the path of the grid file; it is
+        # information, the check reads the disparity DATA
+        src = desc["source"]
+        ds.attrs["disparity_source"] = tuple(src["value"]) if src.get("tuple") else src["value"]
     wire = [w_im, w_band, w_disp[0] if w_disp else [], w_vars, [jsonwire.wire_str(a) for a in desc["attrs"]]]
     # the model's option encoding: () for None, ((..)) handled by the decoders
     wire[0] = w_im if w_im else []
@@ -257,6 +262,11 @@ def base_dataset(rng, cls, grid):
         d["attrs"] = list(FIVE) + ["disparity_source"]
     if rng.random() < 0.3:
         d["im"]["fill"] = rng.choice(["somenan", "int", "onenumber"])
+    if rng.random() < 0.55:
+        if "disparity_source" not in d["attrs"]:
+            d["attrs"].append("disparity_source")
+        d["source"] = rng.choice([{"value": [-2, 2]}, {"value": [-2, 2], "tuple": True}, {"value": [-3, 4]},
+                                  {"value": "grids/disp_left.tif"}, {"value": [2, -2]}, {"value": [0, 0]}])
     rng.shuffle(d["attrs"])
     return d
 
